@@ -1,6 +1,7 @@
 //! usim — deterministic simulator with fault injection for umya-spreadsheet.
 mod annot;
 mod c02;
+mod c04;
 mod c06;
 mod c11;
 mod c12;
